@@ -1,6 +1,7 @@
 package c05
 
 import (
+	"context"
 	"fmt"
 	"net/http"
 	"net/http/httptest"
@@ -61,11 +62,31 @@ func (w *connsWorld) next(rw http.ResponseWriter, req *http.Request) {
 // serve performs one request like a server goroutine would (a handler panic ends the request).
 // It returns true if the request was admitted; a refusal must be a 503.
 func (w *connsWorld) serve(h hold, gate chan struct{}) (admitted, valid bool) {
+	return w.serveCtx(h, gate, -1)
+}
+
+// serveCtx: with cancelAfter >= 0 the request context is cancelled that long after the
+// request was made (the client went away) - possibly while the handler is still running,
+// which does not end the handler and therefore must not free its slot.  Like net/http, the
+// context is cancelled in any case once ServeHTTP has returned.
+func (w *connsWorld) serveCtx(h hold, gate chan struct{}, cancelAfter time.Duration) (admitted, valid bool) {
 	rq := &hreq{id: len(w.reqs), h: h, gate: gate}
 	w.reqs = append(w.reqs, rq)
 	rec := httptest.NewRecorder()
 	req := httptest.NewRequest(http.MethodGet, "/c05", nil)
 	req.Header.Set("X-C05-Req", strconv.Itoa(rq.id))
+	ctx, cancel := context.WithCancel(context.Background())
+	defer cancel()
+	req = req.WithContext(ctx)
+	if cancelAfter >= 0 {
+		w.r.Probe("request-context-cancelled-by-client")
+		w.r.Go(fmt.Sprintf("client-gone%d", rq.id), func() {
+			if cancelAfter > 0 {
+				w.r.Sleep(cancelAfter)
+			}
+			cancel()
+		})
+	}
 	rq.panicked = guard(func() { w.h.ServeHTTP(rec, req) })
 	rq.code = rec.Code
 	if rq.nextCalled {
@@ -93,13 +114,19 @@ func maxConnsRun(r *simrt.Run, tier string) {
 	w.g = newGauge(r, "maxconns", n)
 	w.h = handler.MaxConnsHandler(n)(http.HandlerFunc(w.next))
 	type op struct {
-		think time.Duration
-		h     hold
+		think  time.Duration
+		h      hold
+		cancel time.Duration // < 0: the client stays until the response
 	}
 	plans := make([][]op, k)
 	for i := range plans {
 		for j := 0; j < perTask; j++ {
-			plans[i] = append(plans[i], op{think: drawDur(t) / 2, h: drawHold(t, allowPanic)})
+			o := op{think: drawDur(t) / 2, h: drawHold(t, allowPanic), cancel: -1}
+			if t.Chance(1, 3) {
+				// the client goes away at once, halfway through or at the end of the hold time
+				o.cancel = o.h.dur * time.Duration(t.Intn(3)) / 2
+			}
+			plans[i] = append(plans[i], o)
 		}
 	}
 	if r.Tracing() {
@@ -115,7 +142,7 @@ func maxConnsRun(r *simrt.Run, tier string) {
 				if p.think > 0 {
 					r.Sleep(p.think)
 				}
-				admitted, valid := w.serve(p.h, nil)
+				admitted, valid := w.serveCtx(p.h, nil, p.cancel)
 				if !valid {
 					return
 				}
@@ -138,8 +165,12 @@ func maxConnsRun(r *simrt.Run, tier string) {
 	var gated []*simrt.Task
 	decided := 0
 	for i := 0; i < n; i++ {
+		gone := time.Duration(-1)
+		if t.Chance(1, 3) {
+			gone = 0 // its client goes away while it waits on the gate: the slot stays taken
+		}
 		gated = append(gated, r.Go(fmt.Sprintf("gated%d", i), func() {
-			w.serve(hold{}, gate)
+			w.serveCtx(hold{}, gate, gone)
 			decided++
 		}))
 	}
